@@ -14,6 +14,7 @@ TxRules == {"merkle", "evidence", "cb_inputs", "cb_notnull", "cb_nodata", "cb_da
             "tx_nullref", "tx_nosig", "duptx", "dupref", "notx", "size", "tx_size", "reward", "fees_error", "tx_missing", "tx_sig", "tx_overspend", "?"}
 Protects(field) == IF field \in {"summary", "evidence"} THEN HeaderRules
                    ELSE IF field = "summary_height" THEN HeaderRules \cup {"decode"}      \* a VLQ: may become non-canonical or swallow following bytes
+                   ELSE IF field = "header_pair" THEN HeaderRules \cup {"decode"}       \* two bytes of the header altered at once
                    ELSE IF field = "header_version" THEN {"decode"}
                    ELSE TxRules \cup {"decode"}
 TInit == tid \in 1..Len(Traces) /\ l = 1 /\ done = FALSE
